@@ -91,6 +91,29 @@ pub fn ledger_consistency_from(w: &World, o: &Obs, floor: u64) -> Vec<(String, S
             bad.push(("chain-block-not-stored".into(), format!("{} {}", b.label, hx(&b.hash))));
         }
     }
+    // (ii') what the node says about itself must hang together even where it has lost touch with
+    // genesis: below the lowest ancestor of the tip that it still stores, nothing is indexed or
+    // flagged as being on the longest chain
+    {
+        let mut lowest_stored = o.tip_id;
+        for &bi in path.iter().rev() {
+            if o.blocks.iter().any(|x| x.0 == w.blocks[bi].hash) {
+                lowest_stored = w.blocks[bi].id;
+            } else {
+                break;
+            }
+        }
+        for (id, h) in idx.iter() {
+            if *id < lowest_stored {
+                bad.push(("index-entry-below-the-first-stored-ancestor".into(), format!("height {} is indexed as {} but the tip's stored ancestors end at height {}", id, hx(h), lowest_stored)));
+            }
+        }
+        for (h, id, flag, _ty) in o.blocks.iter() {
+            if *flag && *id < lowest_stored {
+                bad.push(("flag-set-below-the-first-stored-ancestor".into(), format!("block {} at height {} is flagged as on the longest chain, the tip's stored ancestors end at height {}", hx(h), id, lowest_stored)));
+            }
+        }
+    }
     // (iii) utxo = replay
     let rl = &w.ledgers[t];
     let win_lo = o.tip_id.saturating_sub(g);
@@ -127,7 +150,7 @@ pub fn ledger_consistency_from(w: &World, o: &Obs, floor: u64) -> Vec<(String, S
     if o.last_timestamp != w.blocks[t].ts || o.last_burnfee != w.blocks[t].burnfee {
         bad.push(("last-ts-burnfee".into(), format!("ts {} bf {} vs {} {}", o.last_timestamp, o.last_burnfee, w.blocks[t].ts, w.blocks[t].burnfee)));
     }
-    bad.truncate(8);
+    bad.truncate(10);
     bad
 }
 
@@ -374,6 +397,42 @@ pub fn main(tier: Tier, replay: Option<String>) -> i32 {
     for (r, s) in results {
         rep.merge(r);
         all_seen.extend(s);
+    }
+    // detached chains whose blocks do not depend on what is missing: the node's own chain is the
+    // first block only; a chain D1..D4 carrying zero-value transactions and golden tickets is
+    // delivered without (or before) D1, so that D2..D4 validate on their own and can displace the
+    // node's whole chain, block 1 included
+    for g in [10u64, 3] {
+        let mut r = Report::new("C03", tier.clone(), "model_checking");
+        let mut seen: BTreeSet<Hash> = BTreeSet::new();
+        let built = (|| -> Result<TreeWorld, String> {
+            let mut w = World::standard(g);
+            let mut tb = vec![];
+            let mut p = 0usize;
+            for i in 0..4usize {
+                let ts = w.child_ts(p, 0);
+                let id = w.blocks[p].id + 1;
+                let t = make_tx(&[], &[(key(2).public, 0)], &key(1), ts, format!("detached{}", i).as_bytes());
+                let b = w.build(p, ts, if id % 2 == 0 { Some(key(0)) } else { None }, vec![t], &format!("D{}", i + 1))?;
+                tb.push(b);
+                p = b;
+            }
+            Ok(TreeWorld { w, stem: vec![0], tb, invalid: None, shape: vec![0, 1, 2, 3] })
+        })();
+        match built {
+            Ok(tw) => {
+                for order in [vec![1usize, 2, 3, 0], vec![1, 2, 3], vec![2, 3, 1, 0], vec![3, 2, 1, 0]] {
+                    for loading_done in [true, false] {
+                        let ctx = json!({"g": g, "stem": 1, "detached_chain": "zero-value transactions", "order": order, "loading_done": loading_done});
+                        r.evaluations += 1;
+                        run_one(&tw, &order, loading_done, false, 8, &mut r, &ctx, "detached", &mut seen);
+                    }
+                }
+            }
+            Err(e) => r.machinery(format!("detached chain g={}: {}", g, e)),
+        }
+        rep.merge(r);
+        all_seen.extend(seen);
     }
     rep.states = all_seen.len() as u64;
     for d in all_seen.iter().take(0) {
